@@ -83,8 +83,28 @@ func c06Gen(r *rand.Rand, tier string) any {
 			}
 		}
 	}
+	if r.IntN(100) < 35 {
+		// required projects: their modules are fetched into the module cache and loaded from
+		// there, by several loaders at once
+		genExts(r, p, true)
+		for i := 0; i < nm; i++ {
+			for e := range p.Exts {
+				if p.Exts[e].Sel >= 0 && r.IntN(100) < 30 {
+					p.Modules[i].LoadExt = append(p.Modules[i].LoadExt, e)
+				}
+			}
+		}
+		if r.IntN(12) == 0 {
+			p.Exts[r.IntN(len(p.Exts))].Fails = true
+		}
+	}
 	for _, pk := range pkgs {
 		ps := pkgSpec{Path: pk, Yields: r.IntN(3)}
+		for e := range p.Exts {
+			if p.Exts[e].Sel >= 0 && r.IntN(100) < 50 {
+				ps.LoadsExt = append(ps.LoadsExt, e)
+			}
+		}
 		ps.Globals = append(ps.Globals, globalSpec{Name: "G0", Val: genValue(r, literalKinds)})
 		for mi := 0; mi < nm; mi++ {
 			if r.IntN(100) < 45 {
@@ -157,11 +177,19 @@ func (p *projSpec) loadGraph() (map[string][]string, []string) {
 					if rf.Kind == "libconst" || rf.Kind == "libfunc" {
 						seen[rf.Mod] = true
 					}
+					if (rf.Kind == "extconst" || rf.Kind == "extfunc") && rf.Mod < len(p.Exts) {
+						g[n] = append(g[n], extLabel(rf.Mod))
+					}
 				}
 			}
 		}
 		for _, mi := range pk.LoadsMod {
 			seen[mi] = true
+		}
+		for _, e := range pk.LoadsExt {
+			if e < len(p.Exts) {
+				g[n] = append(g[n], extLabel(e))
+			}
 		}
 		for mi := range seen {
 			g[n] = append(g[n], p.Modules[mi].label())
@@ -177,7 +205,13 @@ func (p *projSpec) loadGraph() (map[string][]string, []string) {
 				g[m.label()] = append(g[m.label()], o.label())
 			}
 		}
+		for _, e := range m.LoadExt {
+			if e < len(p.Exts) {
+				g[m.label()] = append(g[m.label()], extLabel(e))
+			}
+		}
 	}
+	p.extGraph(g)
 	return g, roots
 }
 
@@ -227,6 +261,14 @@ func c06Exec(scAny any, c *simcheck.Ctx) *simcheck.Violation {
 	for i := range h.p.Modules {
 		if h.p.Modules[i].Fails && reach[h.p.Modules[i].label()] {
 			broken = true
+		}
+	}
+	for i := range h.p.Exts {
+		if h.p.Exts[i].Fails && reach[extLabel(i)] {
+			broken = true
+		}
+		if reach[extLabel(i)] {
+			c.St.Probes["module_of_a_required_project_loaded"]++
 		}
 	}
 	if broken {
